@@ -470,6 +470,14 @@ def sec_properties(ctx, nd):
                                     ("invalid" if not valid else ("not-square" if not square and alg != "hrr" else "valueerror")))
                             except ImportError:
                                 v, impl = None, "needs-scipy"
+                        if isinstance(v, np.ndarray):
+                            # the caller owns what it was handed: after the value has been noted it scribbles over the
+                            # array in place; every later vector (this generator, the next request, the next
+                            # generator) must still have the requested properties
+                            handed, v = v, np.array(v, copy=True)
+                            if handed.flags.writeable:
+                                handed *= -2.0
+                                handed += 0.5
                         warned = any(issubclass(w.category, UserWarning) and "identity" in str(w.message) for w in wl)
                         ndraws = rng.calls - calls0
                         case = {"gen": mode, "alg": alg, "d": d, "properties": sorted(props), "seed": seed, "request": t}
